@@ -218,15 +218,21 @@ def reassemble_in_kit_vector(ctx, name, Nc, ptext, wit, rng):
     k = geom[2]
     if fr is None or fr[2] == fr[3] or fr[2] == rc(fr[2]):
         return
-    pat = KV.structure()
-    grp = "(" + "N" * k + ")"
-    if pat.count(grp) != 2:
-        return
-    pat = pat.replace(grp, "(" + fr[2] + ")", 1).replace(grp, "(" + fr[3] + ")", 1)
     for _ in range(20):
-        vtext = gen.instance(rng, pat, run_max=15) + gen.rand_dna(rng, rng.randint(2, 20))
+        # any instance of the class's structure, then the two overhangs (free letters in every kit vector structure) are
+        # overwritten where the string model finds them - independent of how the structure text spells its groups
+        vtext = gen.instance(rng, KV.structure(), run_max=15) + gen.rand_dna(rng, rng.randint(2, 20))
         vf = refmodel.vector_fragment(vtext.upper(), geom)
-        if nsites(vtext, Nc.cutter) == 2 and vf is not None:
+        if nsites(vtext, Nc.cutter) != 2 or vf is None:
+            continue
+        n = len(vtext)
+        t = list(vtext)
+        for at, letters in ((vf[0], fr[3]), ((vf[0] + len(vf[1])) % n, fr[2])):
+            for j, c in enumerate(letters):
+                t[(at + j) % n] = c
+        vtext = "".join(t)
+        vf = refmodel.vector_fragment(vtext.upper(), geom)
+        if nsites(vtext, Nc.cutter) == 2 and vf is not None and vf[2] == fr[3] and vf[3] == fr[2]:
             break
     else:
         ctx.count("kit_vector_reassembly_skipped_unbuildable")
